@@ -32,6 +32,10 @@ func allInstances() []*Instance {
 	regC08(add, p)
 	regC15(add, p)
 	regC01(add, p)
+	regC09(add, p)
+	regC10(add, p)
+	regC16(add, p)
+	regC19(add, p)
 	return all
 }
 
@@ -97,6 +101,58 @@ func regC04(add addFn, p pFn) {
 	for _, n := range []int{18, 22} {
 		add(&Instance{Property: "C04", Name: "keytab-n" + itoa(n), Entry: "keytab.VH_C04_Unmarshal", Params: p("n", n), Tier: "thorough", Reach: []string{"returned"}, Unwind: n + 8, TimeoutS: 1500,
 			Bound: "every input of exactly n bytes starting 05 01|02"})
+	}
+	// post-decode indexing: decoders return every shape (empty sequences, short bit strings)
+	hv := []string{"lineartime", "decryptstub", "asn1havoc", "nfolduf", "des3rtkuf"}
+	add(&Instance{Property: "C04", Name: "apreq-verify-shapes", Entry: "messages.VH_C04_APReqVerifyShapes", Params: p("maxseq", 1, "maxstr", 1, "maxbits", 4), Stubs: hv, Logic: "QF_UFBV", Replay: "stubbed", Reach: []string{"returned"}, TimeoutS: 1200,
+		Bound: "AP-REQ verification with ticket/override names of 0..2 components and every decoded shape: sequences 0..2, strings 0..1, flags 0..4 bytes"})
+	add(&Instance{Property: "C04", Name: "getpactype-shapes", Entry: "messages.VH_C04_GetPACType", Params: p("maxseq", 2, "maxstr", 1, "maxbits", 4), Stubs: append([]string{"pacprocstub"}, hv...), Logic: "QF_UFBV", Replay: "stubbed", Reach: []string{"returned"},
+		Bound: "0..2 authorization data entries of any type, AD-IF-RELEVANT contents decoding to 0..2 entries"})
+	add(&Instance{Property: "C04", Name: "getkeyfrompassword-shapes", Entry: "crypto.VH_C04_GetKeyFromPasswordShapes", Params: p("maxseq", 2, "maxstr", 1, "maxbits", 4), Stubs: hv, Logic: "QF_UFBV", Replay: "stubbed", Reach: []string{"returned"},
+		Bound: "0..2 PA-DATA hints of any type, ETYPE-INFO / ETYPE-INFO2 decoding to 0..2 entries"})
+	// message decryption: every ciphertext length
+	cs := []string{"nfolduf", "des3rtkuf"}
+	for _, et := range allEtypes {
+		for n := 0; n <= 40; n++ {
+			tier := "quick"
+			if n > 12 && n%8 != 0 && n%8 != 1 && n%8 != 7 && n != 28 && n != 36 {
+				tier = "thorough"
+			}
+			add(&Instance{Property: "C04", Name: "decrypt-e" + itoa(et) + "-n" + itoa(n), Entry: "crypto.VH_C04_DecryptMessage", Params: p("etype", et, "n", n), Stubs: cs, Logic: "QF_UFBV", Tier: tier, Reach: []string{"returned"}, Bound: "every ciphertext of exactly n bytes, every key and usage"})
+		}
+		for _, n := range []int{48, 64, 80} {
+			add(&Instance{Property: "C04", Name: "decrypt-e" + itoa(et) + "-n" + itoa(n), Entry: "crypto.VH_C04_DecryptMessage", Params: p("etype", et, "n", n), Stubs: cs, Logic: "QF_UFBV", Tier: "thorough", Reach: []string{"returned"}, Bound: "every ciphertext of n bytes"})
+		}
+	}
+	// helpers, kadmin, GSS tokens, krb5.conf realm blocks
+	for n := 0; n <= 6; n++ {
+		add(&Instance{Property: "C04", Name: "asn1-length-n" + itoa(n), Entry: "asn1tools.VH_C04_LengthHelpers", Params: p("n", n), Reach: []string{"returned"}, Bound: "every input of n bytes"})
+		add(&Instance{Property: "C04", Name: "kadmin-response-n" + itoa(n), Entry: "kadmin.VH_C04_ParseResponse", Params: p("n", n), Reach: []string{"returned"}, Bound: "every input of n bytes"})
+	}
+	for _, n := range []int{0, 3, 6, 8, 12} {
+		add(&Instance{Property: "C04", Name: "kadmin-reply-n" + itoa(n), Entry: "kadmin.VH_C04_ReplyUnmarshal", Params: p("n", n, "maxseq", 1, "maxstr", 1), Stubs: []string{"asn1havoc"}, Replay: "stubbed", Reach: []string{"returned"}, Bound: "every kpasswd reply of n bytes; embedded AP-REP / KRB-PRIV / KRB-ERROR decoded by stubs"})
+	}
+	for _, n := range []int{0, 15, 16, 17, 20} {
+		add(&Instance{Property: "C04", Name: "gss-wrap-n" + itoa(n), Entry: "gssapi.VH_C17_WrapUnmarshal", Params: p("n", n), Bound: "every Wrap token of n bytes"})
+		add(&Instance{Property: "C04", Name: "gss-mic-n" + itoa(n), Entry: "gssapi.VH_C17_MICUnmarshal", Params: p("n", n), Bound: "every MIC token of n bytes"})
+	}
+	add(&Instance{Property: "C04", Name: "realm-lines-2x2", Entry: "config.VH_C04_RealmLines", Params: p("lines", 2, "len", 2), Reach: []string{"returned"}, Bound: "2 lines of 0..2 characters over { } = a space"})
+	add(&Instance{Property: "C04", Name: "realm-lines-3x3", Entry: "config.VH_C04_RealmLines", Params: p("lines", 3, "len", 3), Tier: "thorough", TimeoutS: 1500, Reach: []string{"returned"}, Bound: "3 lines of 0..3 characters"})
+	// PAC
+	for _, n := range []int{8, 24, 40} {
+		tier := "quick"
+		if n == 40 {
+			tier = "thorough"
+		}
+		add(&Instance{Property: "C04", Name: "pac-n" + itoa(n), Entry: "pac.VH_C04_PACUnmarshal", Params: p("n", n, "maxseq", 0, "maxstr", 0), Stubs: []string{"ndrhavoc", "nfolduf", "des3rtkuf"}, Logic: "QF_UFBV", Replay: "stubbed", Tier: tier, Reach: []string{"returned"}, TimeoutS: 1200,
+			Bound: "every PAC of exactly n bytes (allocation decided for every buffer count, processing for <= 2 buffers)"})
+	}
+	for _, n := range []int{0, 4, 10, 12} {
+		tier := "quick"
+		if n == 12 {
+			tier = "thorough" // the UPN_DNS_INFO header is complete: every offset/length combination (~3*10^5 paths)
+		}
+		add(&Instance{Property: "C04", Name: "pac-sub-n" + itoa(n), Entry: "pac.VH_C04_PACSubBuffers", Params: p("n", n), Tier: tier, MaxPaths: 2000000, TimeoutS: 3000, Reach: []string{"returned"}, Bound: "SignatureData / ClientInfo / UPNDNSInfo decoders on every input of n bytes"})
 	}
 	// ccache
 	add(&Instance{Property: "C04", Name: "ccache-short", Entry: "credentials.VH_C04_CCacheUnmarshal", Params: p("n", 1, "version", 0), Bound: "every input of 1 byte"})
@@ -272,6 +328,16 @@ func regC08(add addFn, p pFn) {
 		}
 		add(&Instance{Property: "C08", Name: "generated-key-e" + itoa(et), Entry: "crypto.VH_C08_GeneratedKey", Params: p("etype", et), Stubs: cs, Logic: "QF_UFBV", Reach: []string{"done"}, Bound: "every outcome of crypto/rand"})
 	}
+	for _, n := range []int{0, 1, 2, 3, 4} {
+		add(&Instance{Property: "C08", Name: "rc4-s2k-n" + itoa(n), Entry: "crypto.VH_C08_RC4StringToKey", Params: p("n", n), Logic: "QF_UFBV", Reach: []string{"done"}, Bound: "every valid UTF-8 password of exactly n bytes (n=4 includes every supplementary-plane character)"})
+	}
+	add(&Instance{Property: "C08", Name: "rc4-s2k-n6", Entry: "crypto.VH_C08_RC4StringToKey", Params: p("n", 6), Logic: "QF_UFBV", Tier: "thorough", Reach: []string{"done"}, Bound: "every valid UTF-8 password of 6 bytes"})
+	for order := 0; order < 6; order++ {
+		for mask := 0; mask < 8; mask++ {
+			add(&Instance{Property: "C08", Name: "padata-order" + itoa(order) + "-mask" + itoa(mask), Entry: "crypto.VH_C08_PADataPrecedence", Params: p("order", order, "mask", mask, "maxseq", 1), Stubs: []string{"asn1havoc", "nfolduf", "des3rtkuf", "idealmac"}, Logic: "QF_UFBV", Replay: "stubbed", Reach: []string{"done"},
+				Bound: "one of the 6 orders x 8 subsets of {PA-PW-SALT, PA-ETYPE-INFO, PA-ETYPE-INFO2} with symbolic, distinguishable salts and a symbolic password"})
+		}
+	}
 	add(&Instance{Property: "C08", Name: "default-params", Entry: "crypto.VH_C08_DefaultParams", Reach: []string{"done"}, Bound: "the six etypes"})
 	for _, n := range []int{1, 5, 8, 13, 16} {
 		add(&Instance{Property: "C08", Name: "rotate-n" + itoa(n), Entry: "crypto/rfc3961.VH_C08_RotateRight", Params: p("n", n, "reps", 21), Reach: []string{"done"}, Bound: "every n-byte string, rotation steps 13*i for i in 0..20"})
@@ -302,5 +368,82 @@ func regC01(add addFn, p pFn) {
 		add(&Instance{Property: "C01", Name: "verify-" + v.name, Entry: "service.VH_C01_VerifyAPREQ", Params: p("entries", v.entries, "override", v.override, "pac", v.pac, "prepopulated", v.prepop, "maxseq", v.seq, "maxstr", 1, "maxbits", 4),
 			Stubs: c01Stubs, Logic: "QF_UFBV", Tier: v.tier, Replay: "stubbed", Reach: []string{"accepted", "rejected"}, TimeoutS: 1500,
 			Bound: "keytab entries as given, 1-byte names, ticket sname 1..2 components, decoded sequences (addresses, authorization data, name components) of 0..maxseq elements, strings 0..1 bytes, flags 0..4 bytes, skew in (0, 2^50 ns), clock 1970..2262, all integers full range"})
+	}
+}
+
+func regC09(add addFn, p pFn) {
+	st := []string{"lineartime", "decryptstub", "asn1havoc", "nfolduf", "des3rtkuf"}
+	for _, c := range []int{0, 1} {
+		for _, et := range []int{18, 23} {
+			if et == 23 && c == 0 {
+				continue // rc4 password credentials: string-to-key forks per UTF-8 class; covered at etype 18 (the decision logic is etype-independent) and by C08 rc4-s2k
+			}
+			if c == 1 && et == 23 {
+				continue
+			}
+			add(&Instance{Property: "C09", Name: "asrep-cred" + itoa(c) + "-e" + itoa(et), Entry: "messages.VH_C09_ASRepVerify", Params: p("cred", c, "etype", et, "maxseq", 1, "maxstr", 1, "maxbits", 4), Stubs: st, Logic: "QF_UFBV", Replay: "stubbed",
+				Reach: []string{"accepted", "rejected"}, TimeoutS: 1200, Bound: "credential kind 0 password / 1 keytab; names of 1..2 one-byte components, 0..1 request addresses, decoded sequences 0..1 elements, skew (0,2^50 ns), all integers full range"})
+		}
+	}
+	add(&Instance{Property: "C09", Name: "krberror-surfaces", Entry: "client.VH_C09_KRBErrorSurfaces", Params: p("maxseq", 0, "strlens", 2, "maxbits", 4), Stubs: clientStubs, Logic: "QF_UFBV", Replay: "stubbed", Reach: []string{"done"},
+		Bound: "EVERY non-negative KRB-ERROR code (except the three the client acts on) as the KDC's answer to an AS-REQ and to a TGS-REQ"})
+	add(&Instance{Property: "C09", Name: "tgsrep", Entry: "messages.VH_C09_TGSRepVerify", Params: p("maxseq", 1, "maxstr", 1, "maxbits", 4), Stubs: st, Logic: "QF_UFBV", Replay: "stubbed",
+		Reach: []string{"accepted", "rejected"}, TimeoutS: 1200, Bound: "as asrep; reply object arrives with arbitrary nonce/srealm in its decrypted part"})
+}
+
+var clientStubs = []string{"lineartime", "decryptstub", "asn1havoc", "kdcstub", "nfolduf", "des3rtkuf"}
+
+func regC10(add addFn, p pFn) {
+	add(&Instance{Property: "C10", Name: "cached-ticket", Entry: "client.VH_C10_CachedTicket", Params: p("maxseq", 1, "maxstr", 1, "maxbits", 4), Stubs: clientStubs, Logic: "QF_UFBV", Replay: "stubbed", TimeoutS: 1200,
+		Reach: []string{"no-kdc-contact", "renewal-attempted", "renewed"}, Bound: "one cache entry with arbitrary start/end/renew-till instants, arbitrary clock; renewal runs the real TGS exchange against a KDC stub (reply / network error / KRB-ERROR), decoded sequences 0..1, strings 0..1"})
+	for _, k := range []int{0, 1, 6, 7, 8} {
+		tier := "quick"
+		add(&Instance{Property: "C10", Name: "tgs-referral-chain-k" + itoa(k), Entry: "client.VH_C10_TGSReferralChain", Params: p("k", k, "maxseq", 0, "strlens", 2, "maxbits", 4), Stubs: clientStubs, Logic: "QF_UFBV", Replay: "stubbed", Tier: tier, TimeoutS: 1200, Unwind: 24,
+			Reach: []string{"failed"}, Bound: "a KDC answering k times with a referral TGT to an arbitrary (symbolic) realm, then with the ticket; the encrypted reply parts (nonce, realm, times, key) arbitrary; chain lengths 0,1,6,7,8"})
+	}
+	for _, k := range []int{0, 1, 7, 9} {
+		add(&Instance{Property: "C10", Name: "as-referral-chain-k" + itoa(k), Entry: "client.VH_C10_ASReferralChain", Params: p("k", k, "maxseq", 0, "strlens", 2, "maxbits", 4), Stubs: clientStubs, Logic: "QF_UFBV", Replay: "stubbed", TimeoutS: 1200, Unwind: 24,
+			Reach: []string{"done"}, Bound: "a KDC answering k times KDC_ERR_WRONG_REALM with an arbitrary realm, then a network error"})
+	}
+}
+
+func regC16(add addFn, p pFn) {
+	for _, d := range []int{1, 2, 3} {
+		add(&Instance{Property: "C16", Name: "resolve-depth" + itoa(d), Entry: "config.VH_C16_ResolveRealm", Params: p("depth", d), Reach: []string{"resolved"}, Bound: "hostnames of exactly depth one-byte labels over {a,b}, optional trailing dot, EVERY subset of the candidate mappings and decoys"})
+	}
+	for _, d := range []int{4, 5} {
+		add(&Instance{Property: "C16", Name: "resolve-depth" + itoa(d), Entry: "config.VH_C16_ResolveRealm", Params: p("depth", d), Tier: "thorough", TimeoutS: 1500, Reach: []string{"resolved"}, Bound: "depth 4 and 5"})
+	}
+	for _, n := range []int{1, 2, 3} {
+		add(&Instance{Property: "C16", Name: "getkdcs-n" + itoa(n), Entry: "config.VH_C16_GetKDCs", Params: p("n", n), Stubs: []string{"randstub"}, Replay: "stubbed", Reach: []string{"done"}, Bound: "n configured KDCs, EVERY outcome of math/rand.Intn, two successive lookups"})
+		add(&Instance{Property: "C16", Name: "kpasswd-n" + itoa(n) + "-direct", Entry: "config.VH_C16_GetKpasswdServers", Params: p("n", n, "admin", 0), Stubs: []string{"randstub"}, Replay: "stubbed", Reach: []string{"done"}, Bound: "n kpasswd servers"})
+		add(&Instance{Property: "C16", Name: "kpasswd-n" + itoa(n) + "-admin", Entry: "config.VH_C16_GetKpasswdServers", Params: p("n", n, "admin", 1), Stubs: []string{"randstub"}, Replay: "stubbed", Reach: []string{"done"}, Bound: "n admin servers standing in (port 464)"})
+	}
+	for _, n := range []int{4, 5} {
+		add(&Instance{Property: "C16", Name: "getkdcs-n" + itoa(n), Entry: "config.VH_C16_GetKDCs", Params: p("n", n), Stubs: []string{"randstub"}, Replay: "stubbed", Tier: "thorough", TimeoutS: 1500, Reach: []string{"done"}, Bound: "n configured KDCs"})
+	}
+	for _, n := range []int{0, 1, 2, 3} {
+		add(&Instance{Property: "C16", Name: "boolean-n" + itoa(n), Entry: "config.VH_C16_ParseBoolean", Params: p("n", n), Bound: "EVERY printable ASCII string of exactly n bytes"})
+	}
+	for _, n := range []int{4, 5} {
+		add(&Instance{Property: "C16", Name: "boolean-n" + itoa(n), Entry: "config.VH_C16_ParseBoolean", Params: p("n", n), Tier: "thorough", TimeoutS: 1500, Bound: "every printable ASCII string of n bytes"})
+	}
+	add(&Instance{Property: "C16", Name: "realm-lines-v2", Entry: "config.VH_C16_RealmLines", Params: p("values", 2), Reach: []string{"done"}, Bound: "2 kdc lines with values of 1..2 characters over {h,:,*}"})
+	add(&Instance{Property: "C16", Name: "realm-lines-v3", Entry: "config.VH_C16_RealmLines", Params: p("values", 3), Tier: "thorough", Reach: []string{"done"}, Bound: "3 kdc lines"})
+}
+
+func regC19(add addFn, p pFn) {
+	st := []string{"ndrhavoc", "nfolduf", "des3rtkuf", "idealmac"}
+	for _, et := range []int{17, 18, 19, 20, 23} {
+		add(&Instance{Property: "C19", Name: "general-e" + itoa(et), Entry: "pac.VH_C19_Verify", Params: p("etype", et, "mode", 0, "order", 0, "rodc", 0, "maxseq", 0, "maxstr", 0), Stubs: st, Logic: "QF_UFBV", Replay: "stubbed",
+			Reach: []string{"accepted", "rejected"}, Bound: "PAC of 4 mandatory buffers (logon info 8 bytes, client info, server and KDC signatures of the declared type), EVERY content incl. every signature value"})
+		for mode := 1; mode <= 4; mode++ {
+			add(&Instance{Property: "C19", Name: "tamper-e" + itoa(et) + "-m" + itoa(mode), Entry: "pac.VH_C19_Verify", Params: p("etype", et, "mode", mode, "order", (mode+et)%4, "rodc", mode%2, "maxseq", 0, "maxstr", 0), Stubs: st, Logic: "QF_UFBV", Replay: "stubbed",
+				Reach: []string{"checked"}, Bound: "correctly signed PAC; mode 1 every non-zero mask over the signed buffer contents (incl. RODC identifiers), 2 over the server signature, 3 every other key, 4 version field (idealised MAC); buffer orders rotated"})
+		}
+		for drop := 0; drop < 4; drop++ {
+			add(&Instance{Property: "C19", Name: "mandatory-e" + itoa(et) + "-d" + itoa(drop), Entry: "pac.VH_C19_Mandatory", Params: p("etype", et, "drop", drop, "maxseq", 0, "maxstr", 0), Stubs: st, Logic: "QF_UFBV", Replay: "stubbed",
+				Reach: []string{"checked"}, Bound: "one mandatory buffer (logon info / client info / server signature / KDC signature) replaced by an unknown type"})
+		}
 	}
 }
